@@ -22,6 +22,20 @@ impl -> spec : random long histories over a richer universe (one third each on i
                with fresh; pure operations repeated in two processes.
 Trace_FontCache replays every history through the model: a difference the model explains by a
 stale slot is reported under that slot's name, one it does not explain as unpredicted.
+
+Round 2 added three families (and two defect classes for the vacuity runs):
+img     : fonts carrying every combination of two, three (thorough: four) image tables (SVG, CBDT/CBLC, sbix,
+          EBDT/EBLC) that all hold an image of the glyph asked for; the selection is modelled as a function of the
+          font's tables AND the filter; ALL histories  [query] (filter [query]){1..3}  are generated (the path is part
+          of the VIEW), compared with a fresh font carrying the final filter.  Defect class ImgKeepMode.
+fill    : the model's caches are unbounded maps; one long history per keyed cache fills it far beyond any plausible
+          capacity (distinct (script, language, mask) keys incl. the fraction path that holds two indices at once;
+          languages under complex scripts; hundreds of lookups / Coverage positions) and probes old and new keys at
+          checkpoints.  Defect class LookupsCap (bounded cached_lookups with a scratch slot).
+scopes  : the ReadCache read through scopes derived by offset, offset_length, ReadCtxt::read_scope and nested
+          windows - the key is the absolute position whatever the route.
+Order of verdicts: checks that depend only on TLC data / harness inputs raise ToolError at once; checks that
+depend on what allsorts answered are deferred until the violations are known and only raised when there is none.
 """
 import json
 import subprocess
@@ -46,12 +60,20 @@ ASSUMPTIONS = [
     "collide fonts: the texts shaped on them make every contextual rule match, as the model assumes for nested lookups",
     "the model abstracts text/script/mask/tuple arguments to identities; masks are chosen so that they stay distinct "
     "after intersection with the font's supported features",
+    "img fonts: synthesized TrueType fonts with every combination of 2..4 of SVG, CBDT/CBLC, sbix, EBDT/EBLC, each table "
+    "holding an image of glyphs 1..5 with its own payload and strike size; an image result is ppem, metrics and a digest of "
+    "the image data; the fresh font carries the history's last filter",
+    "fill fonts: a synthesized GSUB with 14 single-substitution features (frac, vert, rvrn first) under DFLT/latn and two "
+    "language systems; a synthesized GSUB+GPOS with one lookup and one Coverage per feature tag L001..; Lohit Devanagari and "
+    "Noto Naskh Arabic under languages nobody has heard of; scripts / languages nobody has heard of fall back to DFLT / the "
+    "default language system, as OpenType says",
+    "scopes: the subject is a pair of ReadCache objects (Coverage, ClassDef) over one buffer; fresh = new caches",
 ]
 
 
 def run(ctx):
     binp = vlib.build_harness("c03_purity")
-    good = vlib.run_tlc(ctx, "MC_FontCache", "MC_FontCache_good.cfg", "mc_good", workers=6, timeout=900)
+    good = vlib.run_tlc(ctx, "MC_FontCache", "MC_FontCache_good.cfg", "mc_good", workers=4, timeout=900)
     ctx.note("MC_FontCache[intended keys]: %d states, AllPure and ModelExact hold (%.1fs)" % (good.distinct, good.wall))
     cfg = "MC_FontCache_code_quick.cfg" if ctx.quick else "MC_FontCache_code_thorough.cfg"
     cases_path = ctx.path("cases.ndjson")
@@ -67,16 +89,20 @@ def run(ctx):
                 if len(sample) < 1 and '"impure":true' in payload:
                     c = json.loads(payload)
                     sample.append({"path": c["path"], "impure_calls": [f for f in c["fan"] if f["impure"]][:2]})
-        code = vlib.run_tlc(ctx, "MC_FontCache", cfg, "mc_code", workers=6, timeout=1500, sink=sink)
-    ctx.note("MC_FontCache[code keys]: %d states, %d cases, %d (state, call) pairs predicted impure (%.1fs)"
-             % (code.distinct, n_cases[0], n_pred[0], code.wall))
+        code = vlib.run_tlc(ctx, "MC_FontCache", cfg, "mc_code", workers=4, timeout=2400, sink=sink)
+        # img once more with all 16 filters (raw relations between filters that the font's tables do not tell apart)
+        code2 = vlib.run_tlc(ctx, "MC_FontCache", "MC_FontCache_code_imgall.cfg", "mc_code_imgall", workers=4, timeout=1500, sink=sink)
+    ctx.note("MC_FontCache[code keys]: %d + %d states, %d cases, %d (state, call) pairs predicted impure (%.1fs + %.1fs)"
+             % (code.distinct, code2.distinct, n_cases[0], n_pred[0], code.wall, code2.wall))
     # vacuity of the new defect classes: with a class switched on, TLC must predict impure histories
     defect_pred = {}
     defect_states = 0
     defect_generated = 0
     for mode, want in (("u16", ("lazy.failedLoad", "readCache.position")),
                        ("u8", ("readCache.position", "lookupCache.index")),
-                       ("rel", ("readCache.position",))):
+                       ("rel", ("readCache.position",)),
+                       ("img", ("images.filter",)),
+                       ("cap", ("lookups.capacity",))):
         cnt = {}
 
         def dsink(tag, payload, cnt=cnt):
@@ -97,25 +123,67 @@ def run(ctx):
     gen_trace = ctx.path("gen_trace.ndjson")
     rep = vlib.run_harness(binp, ["replay", cases_path, gen_trace], timeout=3000)
     rec_trace = ctx.path("rec_trace.ndjson")
-    rec = vlib.run_harness(binp, ["record", ctx.seed, 90 if ctx.quick else 1500, 40 if ctx.quick else 80, rec_trace], timeout=3000)
+    rec = vlib.run_harness(binp, ["record", ctx.seed, 150 if ctx.quick else 2500, 40 if ctx.quick else 80,
+                                  300 if ctx.quick else 3000, rec_trace], timeout=3000)
     selfchecks = rep.pop("collide_selfcheck", []) + rec.pop("collide_selfcheck", [])
+    img_self = rep.pop("img_selfcheck", []) + rec.pop("img_selfcheck", [])
+    img_fresh = rep.pop("img_fresh_results", []) + rec.pop("img_fresh_results", [])
+    fill_self = rep.pop("fill_selfcheck", [])
+    fill_fresh = rep.pop("fill_fresh_results", [])
+    facts = rep.get("input_facts", {})
     ctx.note("replay: %s" % json.dumps(rep, sort_keys=True))
     ctx.note("record: %s" % json.dumps(rec, sort_keys=True))
-    # generator self-checks: the synthesized fonts are what the model says they are
+    # deferred: checks that depend on what allsorts answered - a badly broken tree must show as a violation, not as
+    # a tool error, so these are raised only when no violation was found
+    deferred = []
+    # generator self-checks: the synthesized fonts are what the model says they are (own reader, inputs only)
     if len(selfchecks) < 6:
         raise vlib.ToolError("collide fonts missing: %s" % json.dumps(selfchecks))
     for sc in selfchecks:
         if (sc["objects_found_at_position"] != sc["objects_expected"] or sc["objects_expected"] == 0
                 or sc["tables_over_64k"] < 1 or sc["alias_pairs_u16"] < 2 or sc["alias_pairs_u8"] <= sc["alias_pairs_u16"]
-                or sc["alias_pairs_rel"] < 1 or sc["alias_pairs_lookup_index_u8"] < 1
-                or sc["distinct_results"] != sc["feature_sets"] or not sc["second_language_system_effective"]):
+                or sc["alias_pairs_rel"] < 1 or sc["alias_pairs_lookup_index_u8"] < 1):
             raise vlib.ToolError("collide font does not have the layout the model dictates: %s" % json.dumps(sc))
+        if sc["distinct_results"] != sc["feature_sets"] or not sc["second_language_system_effective"]:
+            deferred.append("collide font: the features do not give pairwise different results: %s" % json.dumps(sc))
+    n_img_fonts = 10 if ctx.quick else 11
+    if len({x["imgs"] for x in img_self}) < n_img_fonts:
+        raise vlib.ToolError("img fonts missing: %s" % json.dumps(img_self))
+    for sc in img_self:
+        if sc["tables_found_with_payload"] != sc["tables_expected"] or sc["tables_expected"] < 2 or sc["stray_tables"]:
+            raise vlib.ToolError("img font does not carry the image tables the model dictates: %s" % json.dumps(sc))
+    for sc in img_fresh:
+        if not (sc["one_image_per_selection"] and sc["none_under_empty_selection"] and sc["distinct_images"] == sc["selections"]):
+            deferred.append("img font: the image found is not a function of the table the model selects: %s" % json.dumps(sc))
+    if {x["sub"] for x in fill_self} != {"keys", "lookups"}:
+        raise vlib.ToolError("fill fonts missing: %s" % json.dumps(fill_self))
+    for sc in fill_self:
+        if sc["objects_found_at_position"] != sc["objects_expected"] or sc["distinct_coverage_positions"] != sc["objects_expected"]:
+            raise vlib.ToolError("fill font does not have the layout the model dictates: %s" % json.dumps(sc))
+    for sc in fill_fresh:
+        if sc["distinct_results"] != sc["feature_sets"]:
+            deferred.append("fill font: the features do not give pairwise different results: %s" % json.dumps(sc))
+    # vacuity from inputs: the histories that can expose the classes were generated and executed
+    fk = facts.get("fill_distinct_keys_before_probe", {})
+    need = 100
+    if (facts.get("img_widen_after_query", 0) == 0 or facts.get("img_narrow_after_query", 0) == 0
+            or facts.get("img_incomparable_after_query", 0) == 0 or facts.get("img_same_filter_after_query", 0) == 0
+            or fk.get("keys", 0) < need or fk.get("complex", 0) < need or fk.get("lookups", 0) < need
+            or facts.get("fill_frac_probes_on_new_key_after_100_keys", 0) == 0
+            or sorted(facts.get("scopes_routes_in_paths", [])) != ["nested", "offset", "offset_length", "read_scope"]
+            or min(rec.get("fill_random_distinct_arguments", {"-": 0}).values()) < need
+            or rec.get("fill_random_fraction_calls", 0) == 0):
+        raise vlib.ToolError("vacuous run: image-filter, cache-filling or scope-route histories missing: %s / %s"
+                             % (json.dumps(facts), json.dumps(rec.get("fill_random_distinct_arguments"))))
     hb = rep.get("histories_by_family", {})
-    if (hb.get("dmg", 0) == 0 or hb.get("collide", 0) == 0 or rep.get("damaged_probes_reporting_the_error", 0) == 0
-            or rep.get("damaged_variants", 0) < 20 or rec.get("damaged_calls_reporting_the_error", 0) == 0
-            or rec.get("histories_by_family", {}).get("dmg", 0) == 0 or rec.get("histories_by_family", {}).get("collide", 0) == 0):
-        raise vlib.ToolError("vacuous run: damaged-table or colliding-cache histories were not executed: %s / %s"
-                             % (json.dumps(rep), json.dumps(rec)))
+    rhb = rec.get("histories_by_family", {})
+    if (any(hb.get(f, 0) == 0 for f in ("dmg", "collide", "img", "fill", "scopes"))
+            or any(rhb.get(f, 0) == 0 for f in ("dmg", "collide", "img", "scopes", "fill-random"))):
+        raise vlib.ToolError("vacuous run: a family of histories was not executed: %s / %s" % (json.dumps(hb), json.dumps(rhb)))
+    if (rep.get("damaged_probes_reporting_the_error", 0) == 0 or rep.get("damaged_variants", 0) < 20
+            or rec.get("damaged_calls_reporting_the_error", 0) == 0):
+        deferred.append("damaged-table fonts do not report their damage: %s" % json.dumps(
+            {k: rep.get(k) for k in ("damaged_probes_reporting_the_error", "damaged_variants", "damaged_variants_dropped")}))
     # pure operations: two runs in-process, and a second process
     r1, r2 = ctx.path("repeat1.ndjson"), ctx.path("repeat2.ndjson")
     vlib.run_harness(binp, ["repeat", ctx.seed, r1], timeout=1500)
@@ -137,7 +205,7 @@ def run(ctx):
             f.write(json.dumps({"i": i, "case": "repeat/%s/%s" % (font, op), "ev": "Repeat", "a": {"font": font, "op": op},
                                 "o": {"digests": ds}}) + "\n")
         # binding self-check: (1) a call flagged 'differs' that the model cannot explain, (2) unequal digests
-        plain = {"fam": "intact", "damaged": [], "lookups": []}
+        plain = {"fam": "intact", "damaged": [], "lookups": [], "imgs": 15, "sub": ""}
         f.write(json.dumps({"i": 10 ** 8, "case": "selftest-1", "ev": "Init", "a": {"font": plain}, "o": {}}) + "\n")
         f.write(json.dumps({"i": 10 ** 8 + 1, "case": "selftest-1", "ev": "Call",
                             "a": {"call": {"op": "HAdvance", "g": 1}, "probe": False}, "o": {"differs": True}}) + "\n")
@@ -146,7 +214,7 @@ def run(ctx):
         # (3) a damaged table whose accessor answers differently the second time, (4) a collide font on which
         # shaping with one feature differs after shaping with another: the model of the code explains neither
         f.write(json.dumps({"i": 10 ** 8 + 3, "case": "selftest-3", "ev": "Init",
-                            "a": {"font": {"fam": "dmg", "damaged": ["gpos"], "lookups": []}}, "o": {}}) + "\n")
+                            "a": {"font": {"fam": "dmg", "damaged": ["gpos"], "lookups": [], "imgs": 7, "sub": ""}}, "o": {}}) + "\n")
         tq = {"op": "Table", "k": "gpos"}
         f.write(json.dumps({"i": 10 ** 8 + 4, "case": "selftest-3", "ev": "Call", "a": {"call": tq, "probe": False}, "o": {"differs": False}}) + "\n")
         f.write(json.dumps({"i": 10 ** 8 + 5, "case": "selftest-3", "ev": "Call", "a": {"call": tq, "probe": False}, "o": {"differs": True}}) + "\n")
@@ -158,12 +226,31 @@ def run(ctx):
         f.write(json.dumps({"i": 10 ** 8 + 7, "case": "selftest-4", "ev": "Call", "a": {"call": cf[0]["path"][0], "probe": False}, "o": {"differs": False}}) + "\n")
         other_call = [x["call"] for x in cf[0]["fan"] if x["call"]["op"] == "Shape" and x["call"] != cf[0]["path"][0]][0]
         f.write(json.dumps({"i": 10 ** 8 + 8, "case": "selftest-4", "ev": "Call", "a": {"call": other_call, "probe": True}, "o": {"differs": True}}) + "\n")
+        # (5) an image query that differs after narrow filter, query, wider filter; (6) a fraction-path probe that
+        # differs after a long fill; (7) a cached read that differs after a read through another route: taken from
+        # TLC's cases, the model of the code explains none of them
+        k = 10 ** 8 + 10
+        for tag, pick in (("selftest-5", lambda c: c["font"]["fam"] == "img" and len(c["path"]) >= 3 and c["path"][-1]["op"] == "SetFilter"),
+                          ("selftest-6", lambda c: c["font"]["fam"] == "fill" and c["font"]["sub"] == "keys" and len(c["path"]) >= 100),
+                          ("selftest-7", lambda c: c["font"]["fam"] == "scopes" and len(c["path"]) >= 1)):
+            cs = [c for c in cases if pick(c)]
+            if not cs:
+                raise vlib.ToolError("no case generated for the planted event %s" % tag)
+            c = cs[0]
+            f.write(json.dumps({"i": k, "case": tag, "ev": "Init", "a": {"font": c["font"]}, "o": {}}) + "\n")
+            for pc in c["path"]:
+                k += 1
+                f.write(json.dumps({"i": k, "case": tag, "ev": "Call", "a": {"call": pc, "probe": False}, "o": {"differs": False}}) + "\n")
+            probe = [x["call"] for x in c["fan"] if x["call"]["op"] in ("Image", "ReadCached") or x["call"].get("frac")][0]
+            k += 1
+            f.write(json.dumps({"i": k, "case": tag, "ev": "Call", "a": {"call": probe, "probe": True}, "o": {"differs": True}}) + "\n")
+            k += 1
     other = {"IMPURE": []}
     total, mism = vlib.judge_trace_parallel(ctx, "Trace_FontCache", "Trace_FontCache.cfg", trace, "judge",
                                             parts=8 if ctx.quick else 14, other_tags=other, timeout=3000)
     ctx.note("judge: %d events, %d explained impurities, %d unexplained" % (total, len(other["IMPURE"]), len(mism)))
     planted = {m["case"] for m in mism if m["case"].startswith("selftest")}
-    if planted != {"selftest-1", "selftest-2", "selftest-3", "selftest-4"}:
+    if planted != {"selftest-%d" % n for n in range(1, 8)}:
         raise vlib.ToolError("binding self-check failed: planted events flagged = %s" % sorted(planted))
     violations = []
     for m in other["IMPURE"]:
@@ -181,13 +268,34 @@ def run(ctx):
             key = "unpredicted|%s" % m["call"]["op"]
             what = "%s differs from a fresh font and the cache model has no stale read (case %s)" % (vlib.short(m["call"], 160), m["case"])
         violations.append(Violation(key, what, m))
+    known = vlib.load_known(ctx.prop)
+    if deferred and not [v for v in violations if v.key not in known]:
+        raise vlib.ToolError("; ".join(deferred))
+    if deferred:
+        ctx.note("deferred self-checks failed, reported after the violations: %s" % "; ".join(deferred))
     coverage = {
-        "states": good.distinct + code.distinct + defect_states,
-        "transitions": good.generated + code.generated + defect_generated,
+        "states": good.distinct + code.distinct + code2.distinct + defect_states,
+        "transitions": good.generated + code.generated + code2.generated + defect_generated,
         "traces_validated_against_impl": rep["histories"] + rec["histories"] + len(groups),
         "samples": sample + [{"repeat": k, "digests": v} for k, v in list(sorted(groups.items()))[:2]],
         "intended_keying_states": good.distinct,
-        "code_keying_states": code.distinct,
+        "code_keying_states": code.distinct + code2.distinct,
+        "image_filter_histories_executed": facts.get("img_histories", 0),
+        "image_filter_histories_widening_after_a_query": facts.get("img_widen_after_query", 0),
+        "image_filter_histories_narrowing_after_a_query": facts.get("img_narrow_after_query", 0),
+        "image_filter_histories_incomparable_after_a_query": facts.get("img_incomparable_after_query", 0),
+        "image_filter_histories_same_filter_after_a_query": facts.get("img_same_filter_after_query", 0),
+        "img_fonts": sorted({x["font"] for x in img_self}),
+        "img_font_selfchecks": img_self[:3],
+        "img_fresh_results": img_fresh[:3],
+        "fill_distinct_keys_before_probe": fk,
+        "fill_fraction_probes_on_new_key_after_100_keys": facts.get("fill_frac_probes_on_new_key_after_100_keys", 0),
+        "fill_font_selfchecks": fill_self,
+        "fill_fresh_results": fill_fresh,
+        "fill_random_distinct_arguments": rec.get("fill_random_distinct_arguments"),
+        "fill_random_fraction_calls": rec.get("fill_random_fraction_calls"),
+        "scope_route_histories_executed": facts.get("scopes_histories", 0),
+        "deferred_selfchecks_failed": deferred,
         "predicted_impure_state_call_pairs": n_pred[0],
         "probes_executed": rep["probes"],
         "generated_histories_executed_by_family": rep["histories_by_family"],
@@ -210,7 +318,7 @@ def run(ctx):
         "explained_impurities": len(other["IMPURE"]),
         "pure_operation_groups_repeated": len(groups),
         "events_judged": total,
-        "binding_selfcheck": "unexplained differences (intact, damaged-table and collide fonts) and unequal digests rejected",
+        "binding_selfcheck": "unexplained differences (intact, damaged-table, collide, img, fill and scopes subjects) and unequal digests rejected",
         "exhaustive": True,
         "explanation": "exhaustive over histories of the cache model (%s); random histories and repeated pure operations sampled" % cfg,
     }
